@@ -426,6 +426,7 @@ type FuncSpec struct {
 	Requires []*Clause
 	Ensures  []*Clause
 	Modifies []*Expr
+	ModGhost []string
 	ModAll   bool
 	Panics   []*Clause // allowed panic conditions
 	Loops    []*LoopSpec
@@ -593,6 +594,19 @@ func parseSig(s string) (name string, params []SpecParam, ret string, tail strin
 	if i < 0 {
 		panic("bad signature " + s)
 	}
+	// method keys such as pkg.(*T).M(params): skip the receiver parenthesis;
+	// keys with a constant operand such as fmt.Fprintf["%d\t"](...): skip the bracket
+	if br := strings.Index(s, "[\""); br >= 0 && br < i {
+		if e := strings.Index(s[br:], "\"]("); e >= 0 {
+			i = br + e + 2
+		}
+	} else if i > 0 && s[i-1] == '.' {
+		if c := strings.Index(s[i:], ")."); c >= 0 {
+			if j := strings.Index(s[i+c:], "("); j >= 0 {
+				i = i + c + j
+			}
+		}
+	}
 	name = strings.TrimSpace(s[:i])
 	depth := 0
 	j := i
@@ -739,6 +753,10 @@ func LoadSpecFile(path, pkg string) (sf *SpecFile, err error) {
 				break
 			}
 			for _, part := range splitTop(l.rest, ',') {
+				if strings.HasPrefix(part, "ghost ") {
+					cur.ModGhost = append(cur.ModGhost, strings.TrimSpace(part[6:]))
+					continue
+				}
 				e, err := ParseExpr(part)
 				if err != nil {
 					panic(fmt.Sprintf("%s: %v", l.pos, err))
